@@ -119,6 +119,16 @@ def tiersStr (ts : List C02.ProtoTier) : String :=
   joinOr (ts.map (fun t => t.name ++ ":" ++ (if t.defaultAction == "" then "-" else t.defaultAction) ++ ":" ++
     joinOr (t.ingress.map polIdStr) "," ++ ":" ++ joinOr (t.egress.map polIdStr) ",")) ";"
 
+def catStr : C02.GenCat → String
+  | .sa => "sa" | .ns => "ns" | .host => "host" | .pool => "pool" | .svc => "svc"
+
+def parseCat : String → Option C02.GenCat
+  | "sa" => some .sa | "ns" => some .ns | "host" => some .host | "pool" => some .pool | "svc" => some .svc
+  | _ => none
+
+def genLines (l : List ((C02.GenCat × String) × String)) : List String :=
+  l.map (fun p => s!"gen {catStr p.1.1} {p.1.2} {p.2}")
+
 def render (d : DState) : String :=
   let pols := d.acc.pols.map (fun p => s!"pol {polIdStr p.1} {p.2.tag} [{joinWith "," p.2.refs}]")
   let profs := d.acc.profs.map (fun p => s!"prof {p.1} {p.2.tag} [{joinWith "," p.2.refs}]")
@@ -128,7 +138,7 @@ def render (d : DState) : String :=
     | .wep id => s!"wep {id} {e.data.tag} [{joinWith "," e.data.profiles}] {tiersStr e.tiers.normal}"
     | .hep id => s!"hep {id} {e.data.tag} [{joinWith "," e.data.profiles}] {tiersStr e.tiers.normal} | {tiersStr e.tiers.untracked} | {tiersStr e.tiers.preDNAT} | {tiersStr e.tiers.forward}")
   let sets := d.acc.ipsets.map (fun p => s!"ipset {p.1} {p.2.1} [{joinWith "," (sortStrs p.2.2.eraseDups)}]")
-  joinOr (sortStrs (pols ++ profs ++ eps ++ sets)) " ;; "
+  joinOr (sortStrs (pols ++ profs ++ eps ++ sets ++ genLines d.acc.gens)) " ;; "
 
 /-- the same rendering for the SPEC: what a fresh Felix would have emitted for the datastore state -/
 def renderFresh (d : DState) : String :=
@@ -141,7 +151,7 @@ def renderFresh (d : DState) : String :=
     | .wep id => s!"wep {id} {e.data.tag} [{joinWith "," e.data.profiles}] {tiersStr e.tiers.normal}"
     | .hep id => s!"hep {id} {e.data.tag} [{joinWith "," e.data.profiles}] {tiersStr e.tiers.normal} | {tiersStr e.tiers.untracked} | {tiersStr e.tiers.preDNAT} | {tiersStr e.tiers.forward}")
   let sets := f.ipsets.map (fun p => s!"ipset {p.1} {p.2.1} [{joinWith "," (sortStrs p.2.2)}]")
-  joinOr (sortStrs (pols ++ profs ++ eps ++ sets)) " ;; "
+  joinOr (sortStrs (pols ++ profs ++ eps ++ sets ++ genLines f.gen)) " ;; "
 
 def doFlush (d : DState) : DState :=
   let (g, ms) := d.g.flush
@@ -197,6 +207,12 @@ def parseKV : List String → Option Upd
       { pmeta := { tier := dash tier, order := o', doNotTrack := fl[0]? == some '1', preDNAT := fl[1]? == some '1',
                    applyOnForward := fl[2]? == some '1', types := splitList types },
         sel := sel, rules := ⟨tag, i, o⟩ }))
+  | ["pt", cat, key, "del"] => do
+    let c ← parseCat cat
+    some (.passthru c key none)
+  | ["pt", cat, key, tag] => do
+    let c ← parseCat cat
+    some (.passthru c key (some tag))
   | ["other"] => some .other
   | _ => none
 
